@@ -780,7 +780,12 @@ class Gene:
             # HACK: This is hacky but works well for now
             if len(self.alleles[f].func_muts) > 0:
                 continue
-            add: Dict[tuple, MajorAllele] = {}
+            # Database fusion alleles of this configuration absorb identical partial alleles
+            add: Dict[tuple, MajorAllele] = {
+                sorted_tuple(a.func_muts): a
+                for an, a in self.alleles.items()
+                if a.cn_config == f and an != f
+            }
             for an, a in self.alleles.items():
                 # We only make partial major alleles from non-fused major alleles
                 if a.cn_config != "1":
